@@ -219,6 +219,8 @@ check("C15", "replicas cannot stall or fail the primary (safety core)", [
        "2 threads, preemption bound 2", q=P2, no_validate=True, reach=("probed", "done")),
     ob("VerifC15_HeartbeatVsWriteNoDeadlock", "pkg/replication", "the heartbeat sweep finding a replica dead (failing stream or silent beyond the timeout) concurrent with a client write and optionally an acknowledgement for that session: everything returns, the dead replica leaves the reported topology, the healthy one stays",
        "2-3 threads, preemption bound 1", "preemption bound 2", q=P1, t=P2, no_validate=True, reach=("probed", "done")),
+    ob("VerifC15_StatusVsWriteNoDeadlock", "pkg/replication", "the primary's reporting calls (replication Manager.Status with its per-replica detail, GetNodeInfo as served by the node-information RPC) polled while a client writes, with zero or one healthy replica and all three sync modes: the write and the report both return (compatible lock orders between reporting and the write path's sync notification), the reported sequence is not ahead",
+       "2 threads, 2 reporting calls x {0,1} replicas x 3 sync modes, preemption bound 2", q=P2, no_validate=True),
     ob("VerifC15_HeartbeatDropsSilentReplicas", "pkg/replication", "one step of the heartbeat monitor over two sessions with symbolic idle times and possibly failing streams: silent or failing replicas leave the reported topology, healthy ones stay and get a heartbeat",
        "2 sessions, idle times < 24 h kept 1 s away from the limits"),
     ob("VerifC15_FailingReplicaDoesNotFailWrites", "pkg/replication", "a replica whose stream fails on every send next to a healthy one: client writes succeed, the healthy replica is sent every write, the failing one is marked disconnected and not sent to again",
